@@ -119,7 +119,20 @@ def r20_2(ctx, state):
                     if meta is not None and meta[0] == 'agg':
                         chk = dict(meta[2]).get(fields[1])
                     data = fm.get(fields[2]) if fields[2] else None
-                    if chk is not None and chk[0] == 'agg' and chk[1].endswith('::Some') and data is not None:
+                    cs_ = list(cs)
+                    then_form = chk is not None and chk[0] == 'call' and isinstance(chk[1], str) and chk[1].rsplit('::', 1)[-1] in ('then', 'then_some') and 'bool' in chk[1] and len(chk[2]) == 2
+                    if then_form:
+                        # `(version > 2).then(|| ..)`: a checksum is stored exactly when the condition holds
+                        from absint import bool_constraints
+                        bc = bool_constraints(L, chk[2][0], 1)
+                        if bc is not None:
+                            cs_ = cs_ + bc
+                            if not L.feasible(cs_):
+                                continue
+                        else:
+                            then_form = False
+                    if chk is not None and ((chk[0] == 'agg' and chk[1].endswith('::Some')) or then_form) and data is not None:
+                        cs = cs_
                         ln = L.slice_len(('call', 'std::convert::AsRef::as_ref', (data,), None))
                         lo, hi = 0, 1 << 20
                         rc = L.range_constraints(list(cs) + [ln])
